@@ -156,12 +156,12 @@ func c11Eon(p *Prog, c *Check) {
 		n++
 		fi := p.Info(w.Fn)
 		t := fi.T(w.Val)
-		switch shortFn(w.Fn) {
-		case "(*app.ShutterApp).StartDKG":
+		switch {
+		case shortFn(w.Fn) == "(*app.ShutterApp).StartDKG":
 			ok := ParsePat("(cur(_.EONCounter) + 1)").Match(t, Binds{})
 			c.Result(ok, rule, "EONCounter-write@StartDKG", p.siteOf(w.Instr), shortFn(w.Fn), "EONCounter = "+t.s, "the eon counter is not incremented by exactly one", "EONCounter + 1")
-		case "(*app.ShutterApp).InitChain":
-			c.Ok(rule, "EONCounter-write@InitChain", p.siteOf(w.Instr), shortFn(w.Fn), "EONCounter = genesis initial eon", "genesis initialisation")
+		case genesisOnly(p, c)[origin(w.Fn)]:
+			c.Ok(rule, "EONCounter-write@InitChain", p.siteOf(w.Instr), shortFn(w.Fn), "EONCounter = genesis initial eon", "genesis initialisation (InitChain or a helper only InitChain reaches)")
 		default:
 			c.Fail(rule, "EONCounter-write@"+shortFn(w.Fn), p.siteOf(w.Instr), shortFn(w.Fn), "write of EONCounter", "the eon counter is written outside StartDKG/InitChain (eon numbers could repeat)")
 		}
@@ -476,7 +476,49 @@ func c11StartedAt(p *Prog, at ssa.Instruction, cfg *Term, depth int) (bool, stri
 	}
 	ib := Binds{}
 	if !ParsePat("_.Configs[$i]").Match(cfg, ib) {
-		return false, "the configuration being started is not app.Configs[i]: " + cfg.s, nil
+		// a helper that receives (i, Configs[i]): every call site must pass the configuration at the
+		// index it passes
+		pi := -1
+		if cfg.K == TParam && fn.Parent() == nil {
+			pc := -1
+			for k, prm := range fn.Params {
+				if prm.Name() == cfg.Name {
+					pc = k
+				}
+			}
+			callers := 0
+			for _, cs := range p.CG().Callers(fn) {
+				if isTestScaffold(cs.Caller) || cs.Instr.Common().IsInvoke() || pc < 0 {
+					continue
+				}
+				callers++
+				cfi := p.Info(cs.Caller)
+				args := cs.Instr.Common().Args
+				cb := Binds{}
+				if pc >= len(args) || !ParsePat("_.Configs[$ic]").Match(cfi.T(args[pc]), cb) {
+					pi = -2
+					break
+				}
+				found := -1
+				for k, a := range args {
+					if k != pc && cfi.T(a).s == cb["ic"].s {
+						found = k
+					}
+				}
+				if found < 0 || (pi >= 0 && pi != found) {
+					pi = -2
+					break
+				}
+				pi = found
+			}
+			if callers == 0 {
+				pi = -2
+			}
+		}
+		if pi < 0 {
+			return false, "the configuration being started is not app.Configs[i]: " + cfg.s, nil
+		}
+		ib["i"] = fi.T(fn.Params[pi])
 	}
 	aphi, isPhi := rb["a"].Val.(*ssa.Phi)
 	if !isPhi {
@@ -684,11 +726,36 @@ func c12EndBlock(p *Prog, c *Check) {
 			c.Result(ok, rule, "EndBlock:helper-result@"+retKey(fi, r), p.siteOf(r), shortFn(fn), "result of the diff helper", "the helper does not return the diff's ValidatorUpdates()", "DiffPowermaps(...).ValidatorUpdates()")
 		}
 	}
+	type respLit struct {
+		flds map[string]*Term
+		r    *ssa.Return
+		fi   *FnInfo
+	}
+	var lits []respLit
 	for _, r := range returnsOf(eb) {
-		flds := efi.structLitFields(r.Results[0])
-		if flds == nil {
+		if flds := efi.structLitFields(r.Results[0]); flds != nil {
+			lits = append(lits, respLit{flds, r, efi})
 			continue
 		}
+		// the response is assembled by a helper: its literals, in EndBlock's terms
+		if call, isCall := r.Results[0].(*ssa.Call); isCall {
+			if h := call.Common().StaticCallee(); h != nil && inModule(h) && h.Blocks != nil && !call.Common().IsInvoke() {
+				hv := calleeView(p, view{efi, func(t *Term) *Term { return t }}, call)
+				c.Analysed(shortFn(hv.fi.Fn))
+				for _, hr := range returnsOf(hv.fi.Fn) {
+					if hf := hv.fi.structLitFields(hr.Results[0]); hf != nil {
+						up := map[string]*Term{}
+						for k, t := range hf {
+							up[k] = hv.up(t)
+						}
+						lits = append(lits, respLit{up, hr, hv.fi})
+					}
+				}
+			}
+		}
+	}
+	for _, lit := range lits {
+		flds, r := lit.flds, lit.r
 		vu := flds["ValidatorUpdates"]
 		if vu == nil {
 			continue // dev mode: no updates
@@ -698,12 +765,12 @@ func c12EndBlock(p *Prog, c *Check) {
 		if fn != eb {
 			ok = vu.K == TCall && vu.Callee != nil && origin(vu.Callee) == fn
 		}
-		c.Result(ok, rule, "EndBlock:returned-updates@"+retKey(efi, r), p.siteOf(r), shortFn(eb), "ResponseEndBlock.ValidatorUpdates", "returned updates are not the diff's ValidatorUpdates(): "+vu.s, "DiffPowermaps(...).ValidatorUpdates()")
+		c.Result(ok, rule, "EndBlock:returned-updates@"+retKey(lit.fi, r), p.siteOf(r), shortFn(lit.fi.Fn), "ResponseEndBlock.ValidatorUpdates", "returned updates are not the diff's ValidatorUpdates(): "+vu.s, "DiffPowermaps(...).ValidatorUpdates()")
 	}
 	c.Floor(rule, n, 1)
 	// only the diffing function and InitChain write app.Validators
 	for _, w := range p.fieldWrites(app, "Validators") {
-		ok := origin(w.Fn) == fn || shortFn(w.Fn) == "(*app.ShutterApp).InitChain"
+		ok := origin(w.Fn) == fn || genesisOnly(p, c)[origin(w.Fn)]
 		c.Result(ok, rule, "Validators-write@"+shortFn(w.Fn), p.siteOf(w.Instr), shortFn(w.Fn), "write of app.Validators", "the validator map is written outside EndBlock/InitChain", "EndBlock / InitChain")
 	}
 }
@@ -1485,4 +1552,35 @@ func c12Quorum(p *Prog, c *Check) {
 func mkBin(op string, l, r *Term) *Term {
 	t := mk(TBin, op, nil, nil, l, r)
 	return t
+}
+
+var genesisOnlySet map[*ssa.Function]bool
+
+// genesisOnly: InitChain and the module functions the ABCI entry points reach only through InitChain.
+func genesisOnly(p *Prog, c *Check) map[*ssa.Function]bool {
+	if genesisOnlySet != nil {
+		return genesisOnlySet
+	}
+	genesisOnlySet = map[*ssa.Function]bool{}
+	ic, err := p.Func("app.ShutterApp.InitChain")
+	if err != nil {
+		return genesisOnlySet
+	}
+	var others []*ssa.Function
+	for _, r := range abciRoots(p, c) {
+		if r != ic {
+			others = append(others, r)
+		}
+	}
+	fromOthers := map[*ssa.Function]bool{}
+	for _, f := range p.CG().Reachable(others, nil) {
+		fromOthers[f] = true
+	}
+	genesisOnlySet[ic] = true
+	for _, f := range p.CG().Reachable([]*ssa.Function{ic}, nil) {
+		if !fromOthers[f] && inModule(f) {
+			genesisOnlySet[origin(f)] = true
+		}
+	}
+	return genesisOnlySet
 }
